@@ -261,6 +261,7 @@ func (e *Engine) verifyFunc(name string, forceSafety bool) (res *FuncResult) {
 		vc.usesOnlyObligations(fn, vc.contract)
 		vc.betweenObligations(fn, vc.contract)
 		vc.pairedObligations(fn, vc.contract)
+		vc.deferredOnlyObligations(fn, vc.contract)
 		if vc.contract.NoBody {
 			return
 		}
